@@ -4,6 +4,7 @@ From Coq Require Import List NArith Bool Lia String.
 From Breadlog Require Import Model.Peg Model.Text Model.Regex Model.Glue Model.Tables Model.Utf8 Model.Driver Model.History.
 From Breadlog Require Import Gen.Consts.
 From Breadlog Require Import Proofs.RewriteFacts Proofs.WorldFacts Proofs.DriverFacts Proofs.AllocFacts Proofs.RunFacts Proofs.HistoryFacts Proofs.CheckFacts.
+From Breadlog Require Import Model.Lock Proofs.LockFacts.
 From Breadlog Require Import Properties.Common.
 Import ListNotations.
 Open Scope N_scope.
@@ -43,6 +44,28 @@ Theorem C16_next_run_starts_from_lock : forall rc L,
   rc_use_cache rc = true -> cached_id rc (LValid L) = Some L.
 Proof. intros rc L H. unfold cached_id. rewrite H. reflexivity. Qed.
 
+(* ... and at the level of the lock FILE'S TEXT (Model/Lock.v: the text written is the translated
+   CACHE_EDIT_WARNING followed by `<field>: <decimal>\n`, where <field> is the translated name of the only
+   field of struct Cache; the reader models serde_yaml on the shapes such files have and says RUnknown
+   elsewhere): for EVERY id a lock can record, what the tool writes is read back as that id *)
+Theorem C16_lock_text_roundtrip : forall n, n <= 4294967295 -> lock_read (lock_text n) = RValid n.
+Proof. exact lock_roundtrip. Qed.
+
+(* other shapes that still hold the number -- explicit document start (older versions wrote it), CRLF line
+   ends, comment lines after the entry, indentation and blanks around the colon -- and shapes that do not:
+   empty, comments only (no mapping: ignored in favour of scanning), a value above u32::MAX; a value with
+   leading zeros is outside the modelled subset *)
+Theorem C16_lock_text_shapes :
+  let key := c_lock_field in
+  lock_read (c_CACHE_EDIT_WARNING ++ [45; 45; 45; 10] ++ key ++ [58; 32; 49; 48; 48; 10])%list = RValid 100 /\
+  lock_read (flat_map (fun c : N => if (c =? 10)%N then [13; 10] else [c]) (lock_text 100)) = RValid 100 /\
+  lock_read (lock_text 100 ++ [35; 32; 109; 101; 114; 103; 101; 100; 10])%list = RValid 100 /\
+  lock_read ([32; 32] ++ key ++ [32; 58; 9; 55; 32; 32; 10])%list = RValid 7 /\
+  lock_read [] = RCorrupt /\ lock_read c_CACHE_EDIT_WARNING = RCorrupt /\
+  lock_read (key ++ [58; 32; 53; 48; 48; 48; 48; 48; 48; 48; 48; 48; 10])%list = RCorrupt /\
+  lock_read (key ++ [58; 32; 48; 48; 55; 10])%list = RUnknown.
+Proof. exact lock_variants_read. Qed.
+
 (* discovery error (missing / non-directory source dir) or no in-scope file: both modes exit
    non-zero and perform no mutating operation *)
 Theorem C16_nothing_to_scan : forall rc lk o disc,
@@ -68,3 +91,5 @@ Print Assumptions C16_defaults.
 Print Assumptions C16_no_cache_no_lock.
 Print Assumptions C16_corrupt_lock_ignored.
 Print Assumptions C16_nothing_to_scan.
+Print Assumptions C16_lock_text_roundtrip.
+Print Assumptions C16_lock_text_shapes.
